@@ -166,6 +166,9 @@ func solveAll(obls []*Obligation, secs int) {
 	var wg sync.WaitGroup
 	sem := make(chan struct{}, runtime.NumCPU())
 	for i, o := range obls {
+		if o.Status != "" {
+			continue
+		}
 		wg.Add(1)
 		sem <- struct{}{}
 		go func(i int, o *Obligation) {
